@@ -230,3 +230,58 @@ Example ex_raman :
   | _ => False
   end.
 Proof. vm_compute. repeat split. Qed.
+
+(* ---- any sound selector: the per amplifier clauses do not depend on how the model is chosen (single-band Edfa:
+   get_node_restrictions + select_edfa; band of a Multiband_amplifier: preselection + select_edfa) *)
+Theorem C09_amp_budget_any_selector : forall c lib pref_total prev_dp prev_voa nl tp tp_arg sel a d dp voa,
+  set_one_gen c lib pref_total prev_dp prev_voa nl tp tp_arg sel a = Ok (d, dp, voa) ->
+  d_gain d - d_ivoa d == nl + d_dp d - prev_dp + prev_voa /\ d_dp d - d_ovoa d == dp - voa.
+Proof. exact set_one_budget. Qed.
+Print Assumptions C09_amp_budget_any_selector.
+
+Theorem C09_total_power_any_selector : forall c lib pref_total prev_dp prev_voa nl tp tp_arg sel a d dp voa,
+  sel_sound lib (c_ext c) sel ->
+  (c_power_mode c = true \/ 0 <= ozero (an_ivoa a)) ->
+  set_one_gen c lib pref_total prev_dp prev_voa nl tp tp_arg sel a = Ok (d, dp, voa) ->
+  exists params, In params lib /\ a_name params = d_variety d /\ pref_total + d_dp d <= a_pmax params.
+Proof. exact total_power_within_pmax. Qed.
+Print Assumptions C09_total_power_any_selector.
+
+(* ---- multiband OMS: in EVERY band the reference channel of the band leaves each Multiband_amplifier (before the
+   band's output VOA) at reference power + the band amplifier's offset.  proj_band k = band k seen as a single line *)
+Theorem C09_budget_closed_mb : forall c lib groups bis pref_ch p0 s e chain dss k,
+  (k < length bis)%nat ->
+  budget_wf [] (proj_band k chain) ->
+  design_mb c lib groups bis pref_ch p0 s e chain = Ok dss ->
+  Forall2 (fun q d => q == pref_ch + d_dp d) (walk p0 (proj_band k chain) (proj_ds k dss)) (proj_ds k dss).
+Proof. exact budget_closed_mb. Qed.
+Print Assumptions C09_budget_closed_mb.
+
+(* ... and the band's total design power stays within the chosen entry's p_max *)
+Theorem C09_mb_within_pmax : forall c lib groups nl tp tp_arg prev next nd bis st amps rs k,
+  c_power_mode c = true -> (k < length bis)%nat ->
+  mb_node c lib groups nl tp tp_arg prev next nd bis st amps = Ok rs ->
+  let d := fst (fst (nth k rs (dummy_damp, 0, 0))) in
+  exists params, In params lib /\ a_name params = d_variety d /\
+                 bi_pref_total (nth k bis (mkBI 0 0 0)) + d_dp d <= a_pmax params.
+Proof. exact mb_node_within_pmax. Qed.
+Print Assumptions C09_mb_within_pmax.
+
+(* non-vacuity: a two-band line booster - 17 dB span - preamp, auto-designed within the model mA = [c_ok, l0];
+   different channel counts per band (pref_total 10 / 13 dBm) *)
+Definition ex_mb_raw : list rmelem :=
+  [RMA (mkNode "" []) [dummy_ampn; dummy_ampn];
+   RMFib (mkRF 16 (Some (1 # 2)) (Some (1 # 2)) 0 [2 # 10000] None);
+   RMA (mkNode "" []) [dummy_ampn; mkAN (mkNode "" []) None (Some 1) (Some (1 # 2)) None []]].
+Definition ex_mb_bis : list bandinfo := [mkBI 187000 190000 10; mkBI 191300 196000 13].
+
+Example ex_mb :
+  let ch := mprep ex_raman_cfg ex_mb_raw in
+  match design_mb ex_raman_cfg w_mlib w_groups ex_mb_bis 0 (-20) (StartRoadm []) (EndRoadm []) ch with
+  | Ok dss => map (map d_variety) dss = [["l0"; "c_ok"]; ["l0"; "c_ok"]]%string /\
+              walk_okb 0 (-20) (proj_band 0 ch) (proj_ds 0 dss) = true /\
+              walk_okb 0 (-20) (proj_band 1 ch) (proj_ds 1 dss) = true /\
+              budget_wf [] (proj_band 1 ch)
+  | Err _ => False
+  end.
+Proof. vm_compute. repeat split; try discriminate. Qed.
